@@ -60,12 +60,14 @@ pub mod bounded;
 pub mod interval;
 pub mod angles;
 pub mod tolerance;
+pub mod deviations;
+pub mod domain;
 
 /// Native replay entry (cfg(engeom_verif)): returns Err(list of failed checks) when the violation reproduces.
 pub fn replay(name: &str, vals: Vec<Vec<u8>>) -> Result<String, String> {
     let mut c = Concrete::new(vals);
     let known = interval::dispatch(name, &mut c) || angles::dispatch(name, &mut c)
-        || tolerance::dispatch(name, &mut c);
+        || tolerance::dispatch(name, &mut c) || deviations::dispatch(name, &mut c) || domain::dispatch(name, &mut c);
     if !known {
         return Ok(format!("unknown harness {}", name));
     }
